@@ -25,6 +25,10 @@ func gen(r0 *vh.Rand, tier string, n int, emit func(vh.Case)) {
 	for i := 0; i < n; i++ {
 		r := r0.Fork()
 		c := vh.Case{ID: strconv.Itoa(i)}
+		if r.Chance(1, 8) {
+			emit(faultCase(r, c))
+			continue
+		}
 		table := r.Chance(3, 10)
 		gthr := vh.Pick(r, []int{0, 120, 200, 300, 450, 700, 1500, 262144})
 		gmode := r.Intn(3)
@@ -135,6 +139,54 @@ func gen(r0 *vh.Rand, tier string, n int, emit func(vh.Case)) {
 		c.Ops = append(c.Ops, "each", "list", "async", "node", "dump")
 		emit(c)
 	}
+}
+
+// faultCase: a sharded directory (switching disabled, so the dynamic wrapper is inert) is reloaded
+// through a DAG service that refuses one sub-shard block; then every API is exercised.  Each must
+// either report the fault or behave exactly as the map (in particular: no successful, truncated listing).
+func faultCase(r *vh.Rand, c vh.Case) vh.Case {
+	table := r.Chance(1, 3)
+	hm := "murmur"
+	if table {
+		hm = "table"
+	}
+	w := vh.Pick(r, []int{8, 8, 16, 32})
+	c.Ops = append(c.Ops, fmt.Sprintf("cfg 0 %d 256 %s", r.Intn(3), hm))
+	c.Ops = append(c.Ops, fmt.Sprintf("new hamt 0 %d - 0 0 0 0 %s", w, vh.Pick(r, []string{"-", "v1"})))
+	np := r.Range(10, 26)
+	var names []dirx.NameH
+	if table {
+		names = dirx.TablePool(r, np, false)
+	} else {
+		names = dirx.MurmurPool(r, lg2(w), np)
+	}
+	for j, m := 0, r.Range(8, np); j < m; j++ {
+		c.Ops = append(c.Ops, dirx.AddTok(names[j], &dirx.Pool[r.Intn(len(dirx.Pool))]))
+	}
+	c.Ops = append(c.Ops, "list", fmt.Sprintf("faultreload %d", r.Intn(50)))
+	for j, m := 0, r.Range(5, 25); j < m; j++ {
+		nm := vh.Pick(r, names)
+		switch k := r.Intn(100); {
+		case k < 20:
+			c.Ops = append(c.Ops, "find "+nm.Tok())
+		case k < 35:
+			c.Ops = append(c.Ops, dirx.AddTok(nm, &dirx.Pool[r.Intn(len(dirx.Pool))]))
+		case k < 50:
+			c.Ops = append(c.Ops, "rm "+nm.Tok())
+		case k < 65:
+			c.Ops = append(c.Ops, "list")
+		case k < 80:
+			c.Ops = append(c.Ops, "async")
+		case k < 88:
+			c.Ops = append(c.Ops, "each")
+		case k < 95:
+			c.Ops = append(c.Ops, "dump")
+		default:
+			c.Ops = append(c.Ops, "node")
+		}
+	}
+	c.Ops = append(c.Ops, "list", "async", "dump", "node")
+	return c
 }
 
 func exec(c vh.Case, o *vh.Out) { dirx.Run(c, o, false) }
